@@ -917,6 +917,104 @@ func mirrors() {
 	}
 }
 
+// mirrorsBackingOff: a host that asked for a pause (Retry-After) is offered after the others while the pause
+// lasts. One mirror of the registry's own priority: the first read meets "429 Retry-After: 3" at the mirror
+// (reply instant T taken at the server before the reply is written) and is served by the registry. A second
+// read is started at once: T+3 s lies in the future when the call starts, so the mirror is backing off and
+// the registry has to be contacted first (and, having the content, is the only host contacted).
+func mirrorsBackingOff() {
+	all := ops()
+	for rep, name := range []string{"manifest-head", "manifest-get-digest", "blob-head", "manifest-head"}[:ev.Scale(3, 4)] {
+		var o operation
+		for _, x := range all {
+			if x.name == name {
+				o = x
+			}
+		}
+		e := newEnv(1, 1, true)
+		m := e.mirrors[0]
+		populate(m, e)
+		var mu sync.Mutex
+		var tReply time.Time
+		m.Intercept = func(evn *modelreg.Event, w http.ResponseWriter, r *http.Request) bool {
+			mu.Lock()
+			first := tReply.IsZero()
+			if first {
+				tReply = time.Now()
+			}
+			mu.Unlock()
+			if first {
+				w.Header().Set("Retry-After", "3")
+				w.WriteHeader(429)
+				return true
+			}
+			return false
+		}
+		rc := e.client(3, time.Millisecond, 2*time.Millisecond, map[string]uint{"upstream": 1, m.Name: 1})
+		_, err1, _ := runOp(o, e, rc, 20*time.Second)
+		e.w.WaitIdle()
+		e.w.ResetLog()
+		tCall := time.Now()
+		_, err2, _ := runOp(o, e, rc, 20*time.Second)
+		e.w.WaitIdle()
+		run.Eval(1)
+		mu.Lock()
+		t := tReply
+		mu.Unlock()
+		first := ""
+		if l := e.w.Log(); len(l) > 0 {
+			first = l[0].Host
+		}
+		wit := map[string]any{"operation": name, "first_read_err": fmt.Sprint(err1), "second_read_err": fmt.Sprint(err2), "second_read_requests": reqList(e.w), "call_started_after_the_429": tCall.Sub(t).String()}
+		switch {
+		case t.IsZero() || err1 != nil:
+			run.Inconclusive(fmt.Sprintf("back-off order scenario %d: the first read did not meet the mirror's 429 and succeed (%v)", rep, err1))
+		case !tCall.Before(t.Add(3 * time.Second)):
+			run.Inconclusive("back-off order scenario: the second read could only be started after the pause had ended")
+		case first == m.Name:
+			run.Violation("mirror-order/backing-off-host-first", fmt.Sprintf("%s: the mirror had asked for a pause of 3 s (Retry-After) %v before the read started, yet it was contacted first instead of the registry", name, tCall.Sub(t)), wit)
+		case err2 != nil:
+			run.Violation("mirror-read-fails/"+name, fmt.Sprintf("%s failed although the registry has the content: %v", name, err2), wit)
+		default:
+			run.Count("backing_off_mirror_offered_last", 1)
+		}
+		e.w.Close()
+	}
+}
+
+// mirrorIgnoringRange: a download from a mirror is cut mid-body; the mirror answers the resume request with the
+// whole body (it ignores Range: 200, no Content-Range). The client has to fall back to the registry, which
+// honours the range, and deliver the exact bytes.
+func mirrorIgnoringRange() {
+	for rep := 0; rep < ev.Scale(3, 12); rep++ {
+		e := newEnv(1, 1, true)
+		m := e.mirrors[0]
+		populate(m, e)
+		m.Cfg.RangeMode = "ignore"
+		layer := firstLayer(e)
+		cut := 1 + (rep*37)%(len(layer.Content)-1)
+		(&modelreg.Plan{Faults: []*modelreg.Fault{{At: 1, Action: fmt.Sprintf("cut:%d", cut), Match: func(evn *modelreg.Event) bool { return evn.Kind == "blob" && evn.Method == "GET" }}}}).Install(m)
+		rc := e.client(3, time.Millisecond, 2*time.Millisecond, map[string]uint{"upstream": 1, m.Name: 1})
+		ctx, cancel := context.WithTimeout(context.Background(), 20*time.Second)
+		var got []byte
+		rd, err := rc.BlobGet(ctx, rcx.Ref(e.up, e.repo, ""), descriptor.Descriptor{Digest: digest.Digest(layer.Digest), Size: int64(len(layer.Content))})
+		if err == nil {
+			got, err = io.ReadAll(rd)
+			_ = rd.Close()
+		}
+		cancel()
+		e.w.WaitIdle()
+		run.Eval(1)
+		wit := map[string]any{"cut_at": cut, "blob_len": len(layer.Content), "err": fmt.Sprint(err), "received": len(got), "requests": reqList(e.w)}
+		if err != nil || !bytes.Equal(got, layer.Content) {
+			run.Violation("transient-changes-result/blob-get/mirror-ignores-range", fmt.Sprintf("a download cut at byte %d at a mirror that answers the resume with the whole body did not fall back to the registry: err=%v, %d of %d bytes", cut, err, len(got), len(layer.Content)), wit)
+		} else {
+			run.Count("resume_fell_back_from_range_ignoring_mirror", 1)
+		}
+		e.w.Close()
+	}
+}
+
 // ---- (e) hostile servers: bounded progress ----------------------------------------------------------
 
 // linkCycle makes every listing reply of the given kind carry a Link to the next of k pages, the
@@ -1117,6 +1215,8 @@ func main() {
 	terminationAfterFailures()
 	absorb()
 	mirrors()
+	mirrorsBackingOff()
+	mirrorIgnoringRange()
 	hostile()
 	for _, rep := range ev.RaceReports(filepath.Join(os.Getenv("VERIF_BIN"), "race")) {
 		if strings.Contains(rep, "internal/reghttp") {
